@@ -39,6 +39,13 @@ def sumMax : List Int → List Bnd → Int
   | c :: cs, b :: bs => tmax c b + sumMax cs bs
   | _, _ => 0
 
+/-- the matrices `A_min` / `A_max` themselves -/
+def zipTerm (f : Int → Bnd → Int) : List Int → List Bnd → List Int
+  | c :: cs, b :: bs => f c b :: zipTerm f cs bs
+  | _, _ => []
+def aMin (p : Poly) : List (List Int) := p.rows.map (fun r => zipTerm tmin r.cs p.bnds)
+def aMax (p : Poly) : List (List Int) := p.rows.map (fun r => zipTerm tmax r.cs p.bnds)
+
 /-- `row_bounds`: entrywise min/max of (lo·c, hi·c), summed, minus b -/
 def emin (c : Int) (b : Bnd) : Int := min (b.lo * c) (b.hi * c)
 def emax (c : Int) (b : Bnd) : Int := max (b.lo * c) (b.hi * c)
